@@ -290,14 +290,13 @@ def r3_ghost_lines(chk):
     # only pushed for non-From, matched to the nesting level
     fi = repo.fn(EXPAND, "struct_init_block_inner")
     sites = [n for n in walk(fi.body) if n["k"] == "Call" and n["func"]["k"] == "Path" and n["func"]["segs"][-1] == "render_ghost_line"]
-    ok = bool(sites)
-    from ..panics import enclosing_guards
-    for s in sites:
-        gs = enclosing_guards(fi, s)
-        conds = [render(g[1]).replace(" ", "") for g in gs if g[0] == "if" and g[2]]
-        ok = ok and any(c == "!ctx.kind.is_from()" for c in conds) and any("ghosts_attr(&ctx.struct_attr.ty,&ctx.kind)" in c for c in conds)
-    chk.expect("R3", "ghost-lines/guard", ok, EXPAND, fi.line, "struct-level ghost lines must be produced only for non-From conversions, from the ghosts instruction applicable to this conversion",
-               found=[render(g[1])[:60] for s in sites for g in enclosing_guards(fi, s)][:6])
+    from ..panics import guard_conjuncts
+    all_c = [guard_conjuncts(fi, s_) for s_ in sites]
+    good = bool(sites) and all(any(c == "!ctx.kind.is_from()" for c in cs) and any(re.search(r"ghosts_attr\(&ctx\.struct_attr\.ty,&ctx\.kind\)", c) for c in cs) for cs in all_c)
+    # recognised-bad: a ghost line produced under a From guard, or from the raw vector / another kind's instruction
+    bad = bool(sites) and any(any(c == "ctx.kind.is_from()" for c in cs) or any(re.search(r"ghosts_attrs\b(?!\()", c) for c in cs) for cs in all_c)
+    chk.shape("R3", "ghost-lines/guard", good, bad and not good, EXPAND, fi.line,
+              what="struct-level ghost lines must be produced only for non-From conversions, from the ghosts instruction applicable to this conversion", found=[c[:70] for cs in all_c for c in cs][:8])
 
 
 def r4_as_type(chk):
